@@ -101,9 +101,12 @@ class SharedBufferAPI : public BufferAPI<ArrayT>
     bool sharedBuffer() const override
      { return true; }
 
+    //  The logical size (product of shape * itemsize); for a strided
+    // array the gaps between elements are described by 'strides' and
+    // are not part of the exported length.
     Py_ssize_t numBytes() const override
      { return _orig.len() * FixedArrayWidth<typename ArrayT::BaseType>::value *
-              atomicSize() * _orig.stride(); }
+              atomicSize(); }
 
     bool readOnly() const override
      { return !_orig.writable(); }
@@ -149,7 +152,7 @@ class CopyBufferAPI : public BufferAPI<ArrayT>
 
     Py_ssize_t numBytes() const override
      { return _copy.len() * FixedArrayWidth<typename ArrayT::BaseType>::value *
-              atomicSize() * _copy.stride(); }
+              atomicSize(); }
 
     bool readOnly() const override
      { return false; }
